@@ -2,17 +2,11 @@ import DarkluaModel.Rules.Evaluator
 import DarkluaModel.Shared.FloatOps
 /-!
 The executable `EvalOps` instance over IEEE doubles: what the Rust code really computes
-(`f64::EPSILON` comparison, `f64::to_string`, `str::parse::<NumberExpression>` with Rust's
+(`f64::to_string`, `str::parse::<NumberExpression>` with Rust's
 `f64`/`i64`/`u32`/`u64` parsers). Driver code only: no theorem mentions it (the theorems
 quantify over every `NumOps` and every `EvalOps`). Tied to the Rust by the C08 correspondence.
 -/
 namespace DarkluaModel.Evaluator
-
-/-- `f64::EPSILON` = 2⁻⁵² -/
-def f64Epsilon : Float := Float.ofBits 0x3CB0000000000000
-
-/-- `(a - b).abs() < f64::EPSILON` -/
-def epsEqFloat (a b : Float) : Bool := (a - b).abs < f64Epsilon
 
 /-! ### `f64::to_string`: shortest digits that round-trip, positional notation -/
 
@@ -207,7 +201,6 @@ where
 
 /-- what darklua computes, over doubles -/
 def floatEvalOps : EvalOps floatOps where
-  epsEq := epsEqFloat
   fmtRust := fmtRustFloat
   parseLit := parseLitFloat
 
